@@ -82,7 +82,7 @@ def program_source(nodes: List[Dict[str, Any]], task_deps: List[Any], task: Dict
             + ("        if box is not None:\n            box.items.append(me)\n" if task.get("box") else "")
             + ("        LOG('who', 'task', who)\n" if task.get("who_dep") else "")
             + ("        if bag is not None:\n            bag['items'].append('x')\n" if task.get("bag") else "")
-            + "        if slp:\n            await asyncio.sleep(slp)\n"
+            + ("        if slp:\n            await PARK(slp)\n" if task.get("parked") else "        if slp:\n            await asyncio.sleep(slp)\n")
             + ("        if bag is not None:\n            LOG('bag', 'task', list(bag['items']))\n" if task.get("bag") else "")
             + ("        if box is not None:\n            LOG('box', 'task', list(box.items))\n" if task.get("box") else "")
             + ("        LOG('echo', 'task', ctx.message.task_id, ctx.message.args[0] if ctx.message.args else None, ctx.message.labels.get('who'))\n"
@@ -134,6 +134,34 @@ class EmptyBatch(Exception):
         return 0
 
 
+_PARKED: Any = None
+
+
+async def park(delay: float) -> None:
+    """wait `delay` seconds on a future that nothing but the waiting coroutine references strongly (a reply kept in a weak registry);
+    a garbage-collection pass runs right before the wake-up"""
+    import asyncio
+    import gc
+    import weakref
+
+    global _PARKED
+    if _PARKED is None:
+        _PARKED = weakref.WeakValueDictionary()
+    loop = asyncio.get_running_loop()
+    fut = loop.create_future()
+    key = id(fut)
+    _PARKED[key] = fut
+
+    def wake() -> None:
+        gc.collect()
+        f = _PARKED.get(key)
+        if f is not None and not f.done():
+            f.set_result(None)
+
+    loop.call_later(delay, wake)
+    await fut
+
+
 def build(nodes: List[Dict[str, Any]], task_deps: List[Any], task: Dict[str, Any], log: Callable[..., None]) -> Any:
     """exec the program in a throw-away module registered in sys.modules (the task decorator does
     sys.modules[func.__module__]); returns (module, task_function)."""
@@ -142,6 +170,7 @@ def build(nodes: List[Dict[str, Any]], task_deps: List[Any], task: Dict[str, Any
     mod = types.ModuleType(name)
     mod.LOG = log  # type: ignore[attr-defined]
     mod.BadStr = BadStr  # type: ignore[attr-defined]
+    mod.PARK = park  # type: ignore[attr-defined]
     mod.EmptyBatch = EmptyBatch  # type: ignore[attr-defined]
     sys.modules[name] = mod
     src = program_source(nodes, task_deps, task)
